@@ -652,7 +652,7 @@ def gen_plain(rng, depth=0, allow_unicode=True):
         return Rep(x, 1, None)
     if c < 0.7:
         m = rng.randint(0, 3)
-        return Rep(x, m, m + rng.randint(0, 3))
+        return Rep(x, m, max(1, m + rng.randint(0, 3)))
     if c < 0.85:
         return Rep(x, rng.randint(1, 3), None)
     m = rng.randint(1, 3)
